@@ -13,3 +13,25 @@ package badmetrics
 //@   requires b.In != nil && !closed(b.In) && err != nil
 //@   modifies sent(b.In)
 //@   ensures[reported] exists t elem :: sent(b.In) == old(sent(b.In)) ++ recordElem(metric[..], msg[..], errMsg(err.ref), t)
+
+// ---------------------------------------------------------------- manage (C02, C14): what Get() reports is what was rejected
+// One goroutine owns the map: a record received replaces the entry of its key and touches no
+// other; a clean-up only removes entries; a query changes nothing.
+//@ func (b *BadMetrics) manage()
+//@   property C02,C14
+//@   requires b.seen != nil && b.In != nil && b.getReq != nil && b.getResp != nil
+//@   modifies *
+//@   loop 1:
+//@     invariant[wf] b.seen != nil && b.In != nil && b.getReq != nil && b.getResp != nil && clean != nil && clean.C != nil && b.seen == old(b.seen)
+//@     assumed_invariant[channel_ownership] !closed(b.In) && !closed(b.getResp) && !closed(b.getReq)
+//@   loop 2:
+//@     invariant[only_removals] b.seen == old(b.seen) && (forall k bytes :: has(b.seen, k) ==> iter(has(b.seen, k)) && b.seen[k].LastMsg == iter(b.seen[k].LastMsg) && b.seen[k].LastErr == iter(b.seen[k].LastErr) && b.seen[k].Metric == iter(b.seen[k].Metric))
+//@   loop 3:
+//@     invariant[query_reads_only] b.seen == old(b.seen) && (forall k bytes :: has(b.seen, k) == iter(has(b.seen, k)) && (has(b.seen, k) ==> b.seen[k].LastMsg == iter(b.seen[k].LastMsg))) && sent(b.getResp) == iter(sent(b.getResp))
+//@   branch "<-b.In":
+//@     ensures[record_kept_under_its_key; C02] has(b.seen, in.Metric) && b.seen[in.Metric].Metric == in.Metric && b.seen[in.Metric].LastMsg == in.LastMsg && b.seen[in.Metric].LastErr == in.LastErr
+//@     ensures[other_keys_untouched; C02] forall k bytes :: k != in.Metric ==> has(b.seen, k) == old(has(b.seen, k)) && (has(b.seen, k) ==> b.seen[k].LastMsg == old(b.seen[k].LastMsg) && b.seen[k].LastErr == old(b.seen[k].LastErr))
+//@   branch "<-clean.C":
+//@     ensures[cleanup_only_removes; C02] forall k bytes :: has(b.seen, k) ==> old(has(b.seen, k)) && b.seen[k].LastMsg == old(b.seen[k].LastMsg) && b.seen[k].LastErr == old(b.seen[k].LastErr)
+//@   branch "<-b.getReq":
+//@     ensures[query_changes_nothing; C02] (forall k bytes :: has(b.seen, k) == old(has(b.seen, k)) && (has(b.seen, k) ==> b.seen[k].LastMsg == old(b.seen[k].LastMsg))) && llen(sent(b.getResp)) == llen(old(sent(b.getResp))) + 1
